@@ -9,6 +9,7 @@
 -/
 import J2M.Proofs.Merge
 import J2M.Proofs.MergeAtoms
+import J2M.Proofs.MergeTight
 namespace J2M.C02
 open J2M
 
@@ -149,6 +150,33 @@ theorem generate_opt_of_absent {cfg : GenCfg} {o : GenOracles} {samples : List J
   have hopt := mergeFieldSets_opt_of_absent h2 hm0 habs
   cases t0 <;> simp [Ty.isOpt] at hopt
   exact optimize_opt_isOpt ho
+
+/-- **C02.1 at the level of `generate`** (direction ⇒, tightness): a root field is `Optional` only if
+    its key is missing from some sample or `null` in some sample.  For all samples, options, oracles;
+    no hash-injectivity assumption. -/
+theorem generate_opt_only_if {cfg : GenCfg} {o : GenOracles} {samples : List Json} {fs : Fields}
+    (h : generate cfg o samples = .ok (.obj fs)) {k : String} {t : Ty} (hm : (k, t) ∈ fs)
+    (hopt : t.isOpt = true) :
+    (∃ kvs, Json.obj kvs ∈ samples ∧ k ∉ kvs.map (·.1)) ∨
+    (∃ kvs, Json.obj kvs ∈ samples ∧ (k, Json.null) ∈ kvs) :=
+  generate_opt_only_if_aux h hm hopt
+
+/-- non-vacuity of `generate_opt_of_absent` / `generate_opt_only_if`: `[{"a": 1}, {}]` -/
+example : generate { lit := cEx, reg := ⟨[], [], []⟩, dictFields := [], dictRegex := [] }
+    ⟨fun _ _ => some false, fun _ _ => some false, StrOracle.default⟩
+    [.obj [("a", .int 1)], .obj []] = .ok (.obj [("a", .opt .int)]) := by
+  simp [generate, convert, convertFields, detect, mergeFieldSets, mergeFieldSets.go, mergeStep, mergeOne,
+    Fields.get?, Fields.set, Fields.keys, Fields.has, Ty.isOpt, Ty.fuelFor, optimize, bind, Except.bind,
+    pure, Except.pure, cEx]
+
+/-- **member provenance for `merge_field_sets`** (opt-free sets): a non-literal, non-`str` union member
+    of the merged type of `k` (looking through a top-level `DOptional`) is a union member of the type
+    of `k` in some set — nothing but literals folding and `str` widening is invented. -/
+theorem merge_member_provenance {c : LitCfg} {e : EqEnv} {sets : List Fields} {fields : Fields}
+    (h : mergeFieldSets c e sets = .ok fields) (hno : SetsNoOpt sets) {k : String} {t m : Ty}
+    (hm : (k, t) ∈ fields) (hmem : MemIn m t) (hl : m.isLit = false) (hs : m ≠ .str) :
+    ∃ fs ∈ sets, ∃ u, (k, u) ∈ fs ∧ m ∈ flattenUnion u.unionMembers :=
+  mergeFieldSets_member_provenance h hno hm hmem hl hs
 
 /-! ## 2. `mkUnion_members_subset` -/
 
